@@ -37,9 +37,10 @@ VARIABLES l,
           inrel,   \* a release / destruction is in progress
           freed,   \* ... and has started to give memory back
           nrel,    \* number of completed releases
-          bad      \* first violated clause
+          bad,     \* first violated clause of the current execution
+          verd     \* verdicts of all executions: <<line, clause>>
 
-mvars == <<l, psz, pg, ul, blk, bk, reg, inrel, freed, nrel, bad>>
+mvars == <<l, psz, pg, ul, blk, bk, reg, inrel, freed, nrel, bad, verd>>
 
 Res == 0..7
 Last(s) == s[Len(s)]
@@ -58,8 +59,9 @@ MInit ==
   /\ pg = {} /\ ul = {} /\ blk = {} /\ bk = {}
   /\ reg = [r \in Res |-> <<>>]
   /\ inrel = FALSE /\ freed = FALSE /\ nrel = 0
-  /\ bad = ""
+  /\ bad = "" /\ verd = {}
   /\ TLCSet(1, 1)
+  /\ TLCSet(2, {})
 
 \* the first clause that fails, with a tag telling whether a release has happened before
 Flag(cs) ==
@@ -167,7 +169,7 @@ MSkip(e) == bad' = bad /\ Keep(<<psz, pg, ul, blk, bk, reg, inrel, freed, nrel>>
 MNext ==
   /\ l <= Len(Tr)
   /\ LET e == Tr[l]
-     IN CASE e.k = "reset" -> Fresh(e) /\ bad' = bad
+     IN CASE e.k = "reset" -> Fresh(e) /\ bad' = ""
           [] e.k = "palloc" -> MPalloc(e)
           [] e.k = "pfree" -> MPfree(e)
           [] e.k = "ualloc" -> MUalloc(e)
@@ -183,11 +185,12 @@ MNext ==
           [] e.k = "end" -> MEnd(e)
           [] OTHER -> MSkip(e)
   /\ l' = l + 1
+  /\ verd' = IF bad = "" /\ bad' # "" THEN verd \cup {<<l, bad'>>} ELSE verd
   /\ TLCSet(1, IF TLCGet(1) < l' THEN l' ELSE TLCGet(1))
+  /\ TLCSet(2, verd')
 
 MSpec == MInit /\ [][MNext]_mvars
 
-Holds == bad = ""
-
-Post == PrintT(<<"VERIF", TLCGet(1) - 1, Len(Tr), {}>>)
+\* <<"VERIF", lines consumed, lines, verdicts>>: the first violated clause of every execution
+Post == PrintT(<<"VERIF", TLCGet(1) - 1, Len(Tr), TLCGet(2)>>)
 =============================================================================
